@@ -1,0 +1,23 @@
+//go:build verif
+
+package batchers
+
+import (
+	"io"
+	"time"
+)
+
+// VerifOpenReaderToChan is OpenReaderToChan with a caller-chosen auto-flush interval
+// (verification builds only; the production path is untouched).
+func VerifOpenReaderToChan(sourceName string, reader io.ReadCloser, batchSize, batchBuffer int, autoFlush time.Duration) *Batcher {
+	out := newBatcher(batchBuffer)
+
+	go func() {
+		defer reader.Close()
+		defer out.close()
+		out.startFileReading(sourceName)
+		out.syncReaderToBatcherWithTimeFlush(sourceName, reader, batchSize, autoFlush)
+	}()
+
+	return out
+}
